@@ -258,6 +258,18 @@ package native
 //@ call (*Int).Sub requires[fee] arg0 == balance.Amount && arg1 == balance.Amount
 //@ call (*Int).Sub requires[amount] 0 <= tx.SystemFee && tx.SystemFee < 1 << 62 && 0 <= tx.NetworkFee && tx.NetworkFee < 1 << 62 ==> arg2.v == tx.SystemFee + tx.NetworkFee
 
+// C04: the copy of ContractManagement's cache that a new DAO layer gets shares no map with the
+// layer below (contracts themselves are shared and replaced, never edited in place): what a failed
+// execution registers or unregisters dies with its layer.
+//@ prop C04
+//@ func (*ManagementCache).Copy
+//@ requires c != nil
+//@ ensures[own] is(result, *ManagementCache) && result.(*ManagementCache) != nil && fresh(result.(*ManagementCache))
+//@ ensures[contracts] c.contracts != nil ==> fresh(result.(*ManagementCache).contracts)
+//@ ensures[nep11] c.nep11 != nil ==> fresh(result.(*ManagementCache).nep11)
+//@ ensures[nep17] c.nep17 != nil ==> fresh(result.(*ManagementCache).nep17)
+//@ ensures[entries] c.nep11 != nil ==> forallkeys(c.nep11, k, has(result.(*ManagementCache).nep11, k) == has(c.nep11, k))
+
 // C16: a native method's handler runs only when the executing context has every flag the
 // method's descriptor asks for; before the Aspidochelone hardfork ContractManagement's deploy
 // and update need only the state and notification flags among those.
